@@ -14,6 +14,7 @@ from __future__ import annotations
 
 import ast
 import itertools
+from pathlib import PurePath
 from typing import Any, Callable
 
 from sa.srcmodel import AnalysisError, ClassInfo, FunctionInfo, Module, Program, dotted, unparse
@@ -99,6 +100,13 @@ class Closure:
         self.env = env
         self.fi = fi
         self.module = module
+
+
+class Native:
+    """A rule-supplied Python callable standing for a callee at the boundary of a table (records / returns abstract values)."""
+
+    def __init__(self, fn: Callable[..., Any]) -> None:
+        self.fn = fn
 
 
 class Bound:
@@ -435,7 +443,7 @@ class Interp:
                 if self.prog.lookup_method(v.cls, "__len__"):
                     return self._call_dunder(v, "__len__", []) != 0
             return True
-        if isinstance(v, (Sym, ClassRef, ExtRef, Closure, Bound)):
+        if isinstance(v, (Sym, ClassRef, ExtRef, Closure, Bound, Native, PurePath)):
             return True
         return bool(v)
 
@@ -624,6 +632,8 @@ class Interp:
                 return a % b
             if isinstance(op, ast.FloorDiv):
                 return a // b
+            if isinstance(op, ast.Div) and isinstance(a, PurePath):
+                return a / b
         except NATIVE_EXC as ex:
             raise Raised(type(ex).__name__) from None
         raise AnalysisError(f"binary operator {type(op).__name__} not modelled")
@@ -775,6 +785,14 @@ class Interp:
             raise AnalysisError(f"attribute {attr} of exception value")
         if obj is None:
             raise Raised("AttributeError")
+        if isinstance(obj, PurePath):
+            # pure path arithmetic only (no file-system access exists on PurePath)
+            if attr in ("parent", "name", "suffix", "stem", "parts", "parents", "suffixes", "anchor"):
+                v = getattr(obj, attr)
+                return list(v) if attr == "parents" else v
+            if attr in ("with_suffix", "with_name", "relative_to", "is_relative_to", "joinpath", "is_absolute", "as_posix", "with_stem", "match"):
+                return ("native", obj, attr)
+            raise AnalysisError(f"path attribute `{attr}` touches the file system or is not modelled")
         if isinstance(obj, ast.AST):
             # a real syntax-tree node built by the rule (pure data): plain field access
             try:
@@ -853,6 +871,8 @@ class Interp:
             return cenv.yields if is_gen else res
         if isinstance(f, ClassRef):
             return self._construct(f.cls, args, kwargs)
+        if isinstance(f, Native):
+            return f.fn(*args, **kwargs)
         if isinstance(f, tuple) and len(f) == 3 and f[0] == "native":
             _tag, obj, attr = f
             try:
@@ -992,7 +1012,7 @@ class Interp:
                 t = NATIVE_TYPES.get(s.name.split(".")[-1])
                 if t is not None and not isinstance(v, (Obj, Sym)) and isinstance(v, t):
                     return True
-                if s.name.split(".")[-1] in ("Path", "PurePath") and isinstance(v, Obj) and v.label == "Path":
+                if s.name.split(".")[-1] in ("Path", "PurePath", "PosixPath") and (isinstance(v, PurePath) or (isinstance(v, Obj) and v.label == "Path")):
                     return True
             else:
                 raise AnalysisError(f"isinstance against {s!r} not modelled")
